@@ -384,6 +384,15 @@ pub fn check(ctx: &Ctx) -> Check {
             eval: Box::new(eval_cli),
         }),
     ];
+    let mut parts = parts;
+    parts.push(Box::new(crate::fuzzrun::FuzzPart {
+        name: "libfuzzer-fz_npy",
+        target: "fz_npy",
+        rule: "coverage-guided (libFuzzer + ASan) mutation of valid npy files with the independent parser as in-target oracle: whatever Array::read_npy accepts must have exactly prod(shape) values and a payload of exactly that many elements (no short tail, no surplus bytes)",
+        runs: ctx.tier.pick(0, 2_000_000),
+        max_len: 2048,
+        seeds: Box::new(|_| crate::props::c15::npy_fuzz_seeds()),
+    }));
     Check {
         parts,
         level: "fault_enumeration",
